@@ -85,6 +85,22 @@ def scenarios(tier):
                 cfg = seq.Config(c, initial=(INIT[kind_],), prefix=prefix, label=c)
                 out.append({"label": "%s/%s/%s" % (c, nm, mode), "cfg": cfg, "mode": mode, "pre": (), "window": (ev,),
                             "family": "mutator"})
+    # first save of a file that does not exist yet: absent or complete, never empty/truncated
+    for c in (("JSONDict", "JSONList") if tier == "quick" else env.all_json_classes()):
+        kind_ = env.kind_of(c)
+        ev = ("op", 0, "setitem", ("n", {"x": [1, 2]})) if kind_ == "dict" else ("op", 0, "append", ({"x": [1, 2]},))
+        for mode in ("wc", "thr", "both"):
+            cfg = seq.Config(c, initial=(env.ABSENT,), label=c)
+            out.append({"label": "%s/create/%s" % (c, mode), "cfg": cfg, "mode": mode, "pre": (), "window": (ev,),
+                        "family": "mutator"})
+    for c in (("BufferedJSONDict", "MemoryBufferedJSONList") if tier == "quick" else
+              ("BufferedJSONDict", "MemoryBufferedJSONDict", "BufferedJSONList", "MemoryBufferedJSONList")):
+        kind_ = env.kind_of(c)
+        wr = (lambda h, k: ("op", h, "setitem", ("w", k))) if kind_ == "dict" else (lambda h, k: ("op", h, "append", (k,)))
+        for mode in (("thr",) if tier == "quick" else ("wc", "thr", "both")):
+            cfg = seq.Config(c, initial=(env.ABSENT, env.ABSENT), objects=(0, 1), label=c)
+            out.append({"label": "%s/create-by-flush/%s" % (c, mode), "cfg": cfg, "mode": mode,
+                        "pre": (("enter_cls", None), wr(0, 1), wr(1, 2)), "window": (("exit_cls",),), "family": "flush"})
     bufclasses = ("BufferedJSONDict", "MemoryBufferedJSONDict") if tier == "quick" else \
         ("BufferedJSONDict", "MemoryBufferedJSONDict", "BufferedJSONList", "MemoryBufferedJSONList",
          "BufferedJSONAttrDict", "MemoryBufferedJSONAttrList")
